@@ -17,7 +17,9 @@ TECHNIQUE = "exhaustive product (program x marked subset x marker variant) again
 LEVEL_TEXT = ("For each language, programs covering every header style, methods and neighbours with nested functions are combined with every "
               "subset of their non-nested, non-enclosing functions and every positive marker form (leader x case x spacing x placement) and "
               "negative form (word later in the comment, 'no cl', marker in a string literal, marker on the line before / after); the result "
-              "must be exactly the ground truth minus the marked functions (positives) or the unchanged ground truth (negatives).")
+              "must be exactly the ground truth minus the marked functions (positives) or the unchanged ground truth (negatives). A metamorphic "
+              "layer does the same on non-canonical snippets and the vendored real-world corpus: marking any reported, non-nested function "
+              "must remove exactly it.")
 LEVEL_NOTE = "Comment leaders enumerated: '#', '//', '/* */' exactly (##, ///, /** are ambiguous in the statement and not enumerated). Bounds in evidence."
 
 POS_LINE = ["//nocl", "// nocl", "//   NOCL  some reason", "// NoCl"]
